@@ -404,3 +404,24 @@ def step_wise_and_run_to_completion_prepare_members_alike(ctx):
               'step-wise and run-to-completion mode prepare a member differently: %s' % SB.diff(pre1, pre2), g1, g1.node)
     ctx.check(post1 == post2, 'AbstractEnsembleSolver._step/_solve#harvest', '%d path summaries of the harvest agree' % len(post1),
               'step-wise and run-to-completion mode harvest a member differently: %s' % SB.diff(post1, post2), g1, g1.node)
+
+
+@rule('C07.k', min_instances=5)
+def no_object_is_shared_between_runs_through_a_default(ctx):
+    """two runs with the same seed and settings in one process are identical only if nothing survives from the first into the second: no function of the solver modules and one-line interfaces (diffev / diffev2 / fmin / fmin_powell / lattice / buckshot / sparsity and the classes behind them) has a default argument that is an object built once at definition time (a Monitor(), a list, a dict) and that it stores, mutates or hands to a solver - an evaluation monitor shared through a default makes the second run start with the first run's evaluation count; positive control on a synthetic wrapper"""
+    probe = ast.parse('def diffev(cost, x0, evalmon=Monitor(), **kwds):\n    solver.SetEvaluationMonitor(evalmon)\n').body[0]
+    ctx.need(len(escaping_mutable_defaults(probe)) == 1, 'shared-default detector lost its positive control')
+    mods = ('mystic.abstract_solver', 'mystic.abstract_map_solver', 'mystic.abstract_ensemble_solver', 'mystic.differential_evolution',
+            'mystic.scipy_optimize', 'mystic.ensemble', 'mystic.solvers')
+    for mname in mods:
+        m = ctx.model.modules[mname]
+        found = []
+        for q, fi in sorted(m.funcs.items()):
+            for pname, how, node in escaping_mutable_defaults(fi.node):
+                found.append((fi, pname, how, node))
+        for fi, pname, how, node in found:
+            ctx.touch(fi)
+            ctx.bad('%s#default[%s]' % (fi.qualname, pname), '%s: the default of `%s` is built once when the function is defined and is %s: every call that omits `%s` works on the same object, so a run depends on the runs before it'
+                    % (fi.qualname, pname, how, pname), fi, node)
+        if not found:
+            ctx.ok(mname + '#defaults', '%d functions: no default object is kept, mutated or handed on' % len(m.funcs), next(iter(m.funcs.values())), m.tree)
